@@ -34,6 +34,16 @@ func (fe *FnEnc) instr(ins ssa.Instruction) {
 	s := fe.s
 	switch x := ins.(type) {
 	case *ssa.DebugRef:
+		// "after =name@k": a hint placed where the k-th assignment (in source order) of a local is made
+		if own := fe.ownContract(); own != nil && len(own.Afters) > 0 && !x.IsAddr {
+			if ord, ok := fe.g.defOrdinals(fe.fn)[x]; ok {
+				var res Val
+				if v, ok := fe.vals[x.X]; ok {
+					res = v
+				}
+				fe.afterAt(own, ord, res, x.Pos())
+			}
+		}
 	case *ssa.BinOp:
 		fe.vals[x] = fe.binop(x)
 	case *ssa.UnOp:
@@ -191,6 +201,42 @@ func (s *Sess) wrapAddSub(x string, w int, signed bool) string {
 	return fmt.Sprintf("(let ((ws %s)) (ite (>= ws %s) (- ws %s) (ite (< ws 0) (+ ws %s) ws)))", x, m, m, m)
 }
 
+// foldAdd / foldSub: a + b, a - b as a literal when both are literals (constant indices keep array
+// stores and loads free of case splits).
+func foldAdd(a, b string) string {
+	if ca, ok := isConstTerm(a); ok {
+		if cb, ok := isConstTerm(b); ok {
+			return numInt(new(big.Int).Add(ca, cb))
+		}
+	}
+	if b == "0" {
+		return a
+	}
+	if a == "0" {
+		return b
+	}
+	return "(+ " + a + " " + b + ")"
+}
+
+func foldSub(a, b string) string {
+	if ca, ok := isConstTerm(a); ok {
+		if cb, ok := isConstTerm(b); ok {
+			return numInt(new(big.Int).Sub(ca, cb))
+		}
+	}
+	if b == "0" {
+		return a
+	}
+	return "(- " + a + " " + b + ")"
+}
+
+func (s *Sess) nameUnlessConst(prefix, t string) string {
+	if _, ok := isConstTerm(t); ok {
+		return t
+	}
+	return s.name(prefix, "Int", t)
+}
+
 func isConstTerm(t string) (*big.Int, bool) {
 	if strings.HasPrefix(t, "(- ") && strings.HasSuffix(t, ")") {
 		v, ok := new(big.Int).SetString(t[3:len(t)-1], 10)
@@ -263,17 +309,22 @@ func (fe *FnEnc) binopTerm(op token.Token, a, b Val, ta, tb, tr types.Type, pos 
 	switch op {
 	case token.ADD:
 		if fe.top.ct != nil && fe.top.ct.NoOverflow {
+			// checked (and from here on known) not to wrap: the exact term, no case split
 			fe.noOverflow("(+ "+at+" "+bt+")", w, signed, pos)
+			return "(+ " + at + " " + bt + ")"
 		}
 		return s.wrapAddSub("(+ "+at+" "+bt+")", w, signed)
 	case token.SUB:
 		if fe.top.ct != nil && fe.top.ct.NoOverflow {
+			// checked (and from here on known) not to wrap: the exact term, no case split
 			fe.noOverflow("(- "+at+" "+bt+")", w, signed, pos)
+			return "(- " + at + " " + bt + ")"
 		}
 		return s.wrapAddSub("(- "+at+" "+bt+")", w, signed)
 	case token.MUL:
 		if fe.top.ct != nil && fe.top.ct.NoOverflow {
 			fe.noOverflow("(* "+at+" "+bt+")", w, signed, pos)
+			return "(* " + at + " " + bt + ")"
 		}
 		return s.wrap("(* "+at+" "+bt+")", w, signed)
 	case token.QUO:
@@ -934,10 +985,10 @@ func (fe *FnEnc) slice(x *ssa.Slice) Val {
 		fe.panicCheck("slice", fmt.Sprintf("(and (<= 0 %s) (<= %s %s) (<= %s %s))", lo, lo, hi, hi, fe.viewCap(v.View)), x.Pos())
 		nv := *v.View
 		if lo != "0" {
-			nv.Off = s.name("so", "Int", "(+ "+v.View.Off+" "+lo+")")
-			nv.Cap = "(- " + fe.viewCap(v.View) + " " + lo + ")"
+			nv.Off = s.nameUnlessConst("so", foldAdd(v.View.Off, lo))
+			nv.Cap = foldSub(fe.viewCap(v.View), lo)
 		}
-		nv.Len = s.name("sl", "Int", "(- "+hi+" "+lo+")")
+		nv.Len = s.nameUnlessConst("sl", foldSub(hi, lo))
 		if v.View.NilFlag == "true" {
 			nv.NilFlag = "true"
 		} else {
@@ -961,7 +1012,7 @@ func (fe *FnEnc) slice(x *ssa.Slice) Val {
 				ln = numInt(new(big.Int).Sub(ch, cl))
 			}
 		}
-		return Val{T: x.Type(), View: &View{Origin: a, Off: lo, Len: s.name("sl", "Int", ln), IsArray: true, Elem: arr.Elem(), NilFlag: "false"}}
+		return Val{T: x.Type(), View: &View{Origin: a, Off: lo, Len: s.nameUnlessConst("sl", ln), IsArray: true, Elem: arr.Elem(), NilFlag: "false"}}
 	case *types.Basic:
 		fe.unsupported("string slicing")
 		return fe.freshVal("ss", x.Type())
